@@ -981,6 +981,153 @@ def nested_variants(anno, genome, tx_id: str, rec, rng: random.Random, n: int,
     return out
 
 
+def tx_exons_gene(anno, tx_id: str) -> List[Tuple[int, int]]:
+    """the exons of a transcript IN TRANSCRIPT ORDER as [start, end) in the (strand-aware) coordinates
+    of its gene"""
+    tx_model = anno.transcripts[tx_id]
+    gene_id = tx_model.transcript.gene_id
+    out = []
+    for ex in tx_model.exon:
+        a = anno.coordinate_genomic_to_gene(int(ex.location.start), gene_id)
+        b = anno.coordinate_genomic_to_gene(int(ex.location.end) - 1, gene_id)
+        out.append((min(a, b), max(a, b) + 1))
+    return sorted(out)
+
+
+def fusion_insertions(anno, fus):
+    """(LEFT_INSERTION_START, LEFT_INSERTION_END, RIGHT_INSERTION_START, RIGHT_INSERTION_END,
+    ACCEPTER_POSITION) the loader will attach to the Fusion record `fus` (None, None for an exonic
+    breakpoint): the retained intronic stretches in donor / accepter GENE coordinates and the accepter
+    position after it moved to the next exon start.  `fus` itself is left as it is."""
+    import copy
+    g = copy.deepcopy(fus)
+    g.shift_breakpoint_to_closest_exon(anno)
+    return tuple(g.attrs.get(k) for k in ('LEFT_INSERTION_START', 'LEFT_INSERTION_END',
+                                          'RIGHT_INSERTION_START', 'RIGHT_INSERTION_END',
+                                          'ACCEPTER_POSITION'))
+
+
+def intronic_fusion(anno, genome, fus, rng: random.Random, donor_side: bool, acc_side: bool,
+                    lo: int = 8, hi: int = 45):
+    """a copy of the Fusion record `fus` (as moPepGen.fake.fake_fusion builds it) whose donor breakpoint
+    is moved INTO an intron of the donor transcript, `lo`..`hi` nt behind the end of an exon that ends
+    inside the CDS (`donor_side`), and / or whose accepter breakpoint is moved into an intron of the
+    accepter, `lo`..`hi` nt in front of an exon (`acc_side`): the fusion transcript then retains a SHORT
+    intronic stretch; for a coding donor a left stretch without a stop codon in the annotated frame is
+    preferred, so the reading frame of the donor usually runs through it into the accepter.
+    None when the transcripts have no such intron."""
+    import copy
+    _imports()
+    from moPepGen.SeqFeature import FeatureLocation
+    f = copy.deepcopy(fus)
+    donor = f.attrs['TRANSCRIPT_ID']
+    acc = f.attrs['ACCEPTER_TRANSCRIPT_ID']
+    dm, am = anno.transcripts[donor], anno.transcripts[acc]
+    dgid, agid = dm.transcript.gene_id, am.transcript.gene_id
+    bp, apos = int(f.location.start), int(f.attrs['ACCEPTER_POSITION'])
+    if donor_side:
+        dseq = dm.get_transcript_sequence(genome[dm.transcript.chrom])
+        ex = tx_exons_gene(anno, donor)
+        lo_t = int(dseq.orf.start) + 3 if dseq.orf else 3
+        hi_t = int(dseq.orf.end) if dseq.orf else len(dseq.seq)
+        cands, t = [], 0
+        for (a, b), (c, _d) in zip(ex, ex[1:]):
+            t += b - a
+            if lo_t < t <= hi_t and c - b > lo:
+                cands.append((b, c, t))
+        if not cands:
+            return None
+        gm = anno.genes[dgid]
+        gseq = str(gm.get_gene_sequence(genome[gm.chrom]).seq)
+        rng.shuffle(cands)
+        b, c, t = cands[0]
+        ks = list(range(lo, min(hi, c - b - 1) + 1))
+        if dseq.orf:
+            # prefer a stretch the annotated reading frame of the donor reads through (no stop codon)
+            o = int(dseq.orf.start)
+            for (b_, c_, t_) in cands:
+                first = (t_ - o) // 3 * 3
+                good = []
+                for k in range(lo, min(hi, c_ - b_ - 1) + 1):
+                    s_ = str(dseq.seq)[o:t_] + gseq[b_:b_ + k]
+                    if not any(s_[i:i + 3] in ('TAA', 'TAG', 'TGA') for i in range(first, len(s_) - 2, 3)):
+                        good.append(k)
+                if good:
+                    b, c, t, ks = b_, c_, t_, good
+                    break
+        bp = b + rng.choice(ks)
+        f.location = FeatureLocation(seqname=dgid, start=bp, end=bp + 1)
+        f.ref = gseq[bp]
+        f.attrs['GENOMIC_POSITION'] = anno.coordinate_gene_to_genomic(bp, dgid)
+    if acc_side:
+        ex = tx_exons_gene(anno, acc)
+        tot = sum(b - a for a, b in ex)
+        cands, t = [], 0
+        for (a, b), (c, d) in zip(ex, ex[1:]):
+            t += b - a
+            if c - b > lo and tot - t >= 24:
+                cands.append((b, c))
+        if not cands:
+            return None
+        b, c = rng.choice(cands)
+        apos = c - rng.randint(lo, min(hi, c - b - 1))
+        f.attrs['ACCEPTER_POSITION'] = apos
+        f.attrs['ACCEPTER_GENOMIC_POSITION'] = anno.coordinate_gene_to_genomic(apos, agid)
+    f.id = f'FUSION-{donor}:{bp}-{acc}:{apos}'
+    return f
+
+
+def stretch_variants(anno, genome, tx_id: str, lo: int, hi: int, rng: random.Random, n: int,
+                     margin: int = 2, gap: int = 3, tail: Optional[int] = None,
+                     kinds=('SNV', 'INS', 'DEL', 'INS', 'DEL'), sizes=(1, 1, 2, 3), used=None):
+    """up to n small records (SNV / insertion / deletion of 1-3 nt, VCF-style anchoring) INSIDE the gene
+    range [lo, hi) of the gene of `tx_id` — intronic for that transcript: the stretch a fusion with an
+    intronic breakpoint retains — at least `margin` nt from both ends and `gap` nt apart, written the way
+    parseVEP emits an intronic variant of the transcript (gene coordinates, TRANSCRIPT_ID = tx_id; the same
+    record shape as `nested_variants`).  `tail`: the records start inside the last `tail` nt of the range
+    (close to a donor breakpoint, so that a shifted reading frame still reaches the accepter); `used`:
+    (start, end) ranges already taken by other records of the stretch."""
+    _imports()
+    from moPepGen.seqvar.VariantRecord import VariantRecord
+    from moPepGen.SeqFeature import FeatureLocation
+    tx_model = anno.transcripts[tx_id]
+    gene_id = tx_model.transcript.gene_id
+    gene_model = anno.genes[gene_id]
+    chrom = gene_model.chrom
+    gene_seq = str(gene_model.get_gene_sequence(genome[chrom]).seq)
+    out, used = [], list(used or [])
+    for _ in range(n * 8):
+        if len(out) >= n:
+            break
+        kind = rng.choice(list(kinds))
+        size = rng.choice(list(sizes))
+        span = 1 if kind != 'DEL' else size + 1
+        a, b = lo + margin, hi - margin - span
+        if tail is not None:
+            a = max(a, hi - tail)
+        if b < a:
+            continue
+        start = rng.randint(a, b)
+        end = start + span
+        if any(not (end + gap <= x or y + gap <= start) for x, y in used):
+            continue
+        ref = gene_seq[start:end]
+        if kind == 'SNV':
+            alt, vtype = rng.choice([c for c in 'ACGT' if c != ref]), 'SNV'
+        elif kind == 'INS':
+            alt, vtype = ref + ''.join(rng.choice('ACGT') for _ in range(size)), 'INDEL'
+        else:
+            alt, vtype = ref[0], 'INDEL'
+        g0 = anno.coordinate_gene_to_genomic(start, gene_id)
+        out.append(VariantRecord(
+            location=FeatureLocation(start=start, end=end, seqname=gene_id),
+            ref=ref, alt=alt, _type=vtype, _id=f'{gene_id}-{start}-{ref}-{alt}',
+            attrs={'TRANSCRIPT_ID': tx_id, 'GENOMIC_POSITION': f'{chrom}-{g0}:{g0 + 1}',
+                   'GENE_SYMBOL': gene_model.gene_name}))
+        used.append((start, end))
+    return out
+
+
 def dense_variants(anno, genome, tx_id: str, rng: random.Random, n: int, max_size: int = 4,
                    snv_frac: float = 0.55, window: int = 40, edge_frac: float = 0.25,
                    special: Optional[str] = None, focus_at: Optional[int] = None):
